@@ -26,6 +26,10 @@ type lifeCase struct {
 	MaxProcs int            `json:"maxProcs"` // GOMAXPROCS of the server = admission limit (MAX_RUNNING_QUERIES)
 	Queries  []string       `json:"queries"`
 	Actions  []scriptAction `json:"actions"`
+	// ServerTimeoutSecs > 0: the worker is started with queryTimeoutSecs = this value in its server
+	// configuration (VERIF_QUERY_TIMEOUT_SECS) and the script leaves it alone, so slow queries run
+	// into the server's own query timeout. 0: configuration default, script base timeout of 20 s.
+	ServerTimeoutSecs int `json:"serverTimeoutSecs,omitempty"`
 }
 
 // slowQueries need no stored data: gentimes generates one event per increment.
@@ -38,6 +42,17 @@ var slowQueries = []string{
 	"| gentimes start=-12 increment=1s | stats count",                            // ~1.2 s
 }
 
+// overTimeQueries run longer than a server timeout of 1-2 s on any machine (>= 2.5 s alone). Their
+// total work is bounded in case a cancel does not stop them (on the pinned tree it does: the
+// cancel runs the processor chain's cleanup and the query goroutine is gone within ~50 ms).
+var overTimeQueries = []string{
+	"| gentimes start=-30 increment=1s | stats count",
+	"| gentimes start=-40 increment=1s | eval x=random() | stats count, max(x)",
+	"| gentimes start=-25 increment=1s | eval y=starttime % 7 | stats count by y",
+	"| gentimes start=-30 increment=1s | eval x=random() | sort x | head 5",
+	"| gentimes start=-35 increment=1s | where starttime % 3 = 0 | stats count",
+}
+
 var fastQueries = []string{
 	"*", "* | head 3", "* | stats count", "* | stats count by timestamp", "* | eval x=1 | stats sum(x)", "* | sort timestamp | head 2", "nosuchcol=1",
 	"* | timechart span=1h count", "* | dedup timestamp", "* | where timestamp > 0 | fields timestamp", "* | top 3 timestamp",
@@ -47,6 +62,8 @@ var fastQueries = []string{
 func genLifeCase(t *rapid.T) *lifeCase {
 	ds := gen.GenDataset(t, gen.DatasetOpts{MinEvents: 5, MaxEvents: 60, MaxCols: 4, NoNested: true})
 	c := &lifeCase{DS: ds, MaxProcs: rapid.SampledFrom([]int{2, 2, 3, 4}).Draw(t, "maxProcs")}
+	// about 2/3 of the sequences run under a server query timeout of 1-2 s
+	c.ServerTimeoutSecs = rapid.SampledFrom([]int{1, 0, 2, 1, 0, 2}).Draw(t, "serverTimeout")
 	fp := datasetFields(ds)
 	nq := rapid.IntRange(2, 6).Draw(t, "nQueries")
 	var slowIdx []int
@@ -55,7 +72,13 @@ func genLifeCase(t *rapid.T) *lifeCase {
 		if i == 0 && k < 4 {
 			k = 4 // the first query is always a fast one: large bursts use it
 		}
+		if i == 1 && c.ServerTimeoutSecs > 0 {
+			k = 0 // under a server timeout the second query always outlasts it
+		}
 		switch {
+		case k < 4 && c.ServerTimeoutSecs > 0 && (i == 1 || rapid.Bool().Draw(t, "overTime")):
+			c.Queries = append(c.Queries, rapid.SampledFrom(overTimeQueries).Draw(t, "overTimeQ"))
+			slowIdx = append(slowIdx, i)
 		case k < 4:
 			c.Queries = append(c.Queries, rapid.SampledFrom(slowQueries).Draw(t, "slowQ"))
 			slowIdx = append(slowIdx, i)
@@ -87,6 +110,16 @@ func genLifeCase(t *rapid.T) *lifeCase {
 			a.Query = rapid.IntRange(0, nq-1).Draw(t, "q")
 			if rapid.Bool().Draw(t, "syncSlow") {
 				a.Query = cancelTargetQuery()
+			}
+			// the same request through the handler of POST /api/search (it allots the qid itself,
+			// so such a query cannot be the target of a later cancel action)
+			if c.ServerTimeoutSecs > 0 && rapid.IntRange(0, 2).Draw(t, "viaHTTP") < 2 {
+				a.Kind = "http"
+				if rapid.IntRange(0, 3).Draw(t, "httpN") == 0 {
+					a.Kind = "httpburst"
+					a.N = rapid.SampledFrom([]int{2, 3, 5}).Draw(t, "httpBurstN")
+					started += a.N - 1
+				}
 			}
 			started++
 		case k <= 4:
@@ -130,13 +163,32 @@ func genLifeCase(t *rapid.T) *lifeCase {
 		}
 		c.Actions = append(c.Actions, a)
 	}
+	if c.ServerTimeoutSecs > 0 {
+		// at least one request that outlasts the server timeout goes through the HTTP entry point
+		over := false
+		for _, a := range c.Actions {
+			if (a.Kind == "http" || a.Kind == "httpburst") && a.Query == 1 {
+				over = true
+			}
+		}
+		if !over {
+			c.Actions = append(c.Actions, scriptAction{Kind: "http", Query: 1,
+				DelayMs: rapid.SampledFrom([]int{0, 5, 100, 600}).Draw(t, "overDelay")})
+		}
+	}
 	return c
 }
 
 const (
-	lifeQuiesceMs = 150_000
-	lifeSettleMs  = 12_000
+	lifeQuiesceMs   = 150_000
+	lifeSettleMs    = 12_000
+	lifeSettleMaxMs = 90_000 // only while goroutines of finished queries are still moving
 )
+
+// timedOutOutcome: the query was ended by the server's own query timeout.
+func timedOutOutcome(s string) bool {
+	return s == "ws:TIMEOUT" || (strings.HasPrefix(s, "error:") && strings.Contains(s, "query timed out"))
+}
 
 func terminalOutcome(s string) bool {
 	switch {
@@ -158,7 +210,8 @@ func checkLife(cs *lifeCase, o *pt.Obs) error {
 			queries[i] = "* | head 1"
 		}
 	}
-	req := scriptReq{Index: execIndex, Start: lo, End: hi, Queries: queries, Actions: cs.Actions, QuiesceMs: lifeQuiesceMs, SettleMs: lifeSettleMs}
+	req := scriptReq{Index: execIndex, Start: lo, End: hi, Queries: queries, Actions: cs.Actions, QuiesceMs: lifeQuiesceMs, SettleMs: lifeSettleMs,
+		SettleMaxMs: lifeSettleMaxMs, ServerTimeoutSecs: cs.ServerTimeoutSecs}
 	body, _ := json.Marshal(&req)
 	for _, a := range cs.Actions {
 		o.Class("action_" + a.Kind)
@@ -166,8 +219,14 @@ func checkLife(cs *lifeCase, o *pt.Obs) error {
 			o.Class("burst_beyond_limit")
 		}
 	}
-	opts := sut.Options{Timeout: time.Duration(lifeQuiesceMs+lifeSettleMs+60_000) * time.Millisecond,
+	opts := sut.Options{Timeout: time.Duration(lifeQuiesceMs+lifeSettleMaxMs+60_000) * time.Millisecond,
 		Env: map[string]string{"GOMAXPROCS": fmt.Sprint(cs.MaxProcs)}}
+	if cs.ServerTimeoutSecs > 0 {
+		o.Class(fmt.Sprintf("server_timeout_%ds", cs.ServerTimeoutSecs))
+		opts.Env["VERIF_QUERY_TIMEOUT_SECS"] = fmt.Sprint(cs.ServerTimeoutSecs)
+	} else {
+		o.Class("server_timeout_default")
+	}
 	return pt.WithWorker(opts, func(c *sut.Client) error {
 		if err := ingest(c, cs.DS, 0, false); err != nil {
 			return pt.Inconclusivef("ingest: %v", err)
@@ -186,6 +245,9 @@ func checkLife(cs *lifeCase, o *pt.Obs) error {
 			}
 			return pt.Inconclusivef("script: %v", err)
 		}
+		if cs.ServerTimeoutSecs > 0 && rep.TimeoutSecsAtStart != cs.ServerTimeoutSecs {
+			return pt.Inconclusivef("the worker runs with queryTimeoutSecs=%d, the case asks for %d", rep.TimeoutSecsAtStart, cs.ServerTimeoutSecs)
+		}
 		o.Max("max_active", int64(rep.MaxActive))
 		o.Max("max_waiting", int64(rep.MaxWaiting))
 		o.Count("started", int64(len(rep.Started)))
@@ -195,10 +257,17 @@ func checkLife(cs *lifeCase, o *pt.Obs) error {
 		if rep.MaxWaiting > 0 {
 			o.Class("waiting_queue_used")
 		}
-		cancelRunning := 0
+		cancelRunning, timedOut, timedOutHTTP := 0, 0, 0
 		for _, sq := range rep.Started {
 			if sq.CancelWhileRunning {
 				cancelRunning++
+			}
+			if sq.Returned && timedOutOutcome(sq.Outcome) {
+				timedOut++
+				o.Class("outcome_timed_out_" + sq.Mode)
+				if sq.Mode == "http" {
+					timedOutHTTP++
+				}
 			}
 			if sq.StartedDuringCancl {
 				o.Class("started_during_cancel")
@@ -217,6 +286,28 @@ func checkLife(cs *lifeCase, o *pt.Obs) error {
 			o.Class("cancel_while_running")
 			o.NonTrivial()
 		}
+		o.Count("queries_ended_by_timeout", int64(timedOut))
+		if cs.ServerTimeoutSecs > 0 {
+			o.Count("queries_ended_by_server_config_timeout", int64(timedOut))
+			o.Count("http_queries_ended_by_server_config_timeout", int64(timedOutHTTP))
+			if timedOutHTTP > 0 {
+				o.Class("http_query_ran_into_server_timeout")
+				o.NonTrivial()
+			}
+		}
+		o.Max("settle_waited_ms", rep.SettleWaitedMs)
+		for fn, ms := range rep.Lingered {
+			// which goroutines of finished queries were still winding down at the first dumps, and for how long
+			o.Max("linger_ms "+strings.TrimPrefix(fn, "github.com/siglens/siglens/pkg/"), ms)
+		}
+		for fn, n := range rep.OtherNew {
+			o.Max("other_new_goroutines "+strings.TrimPrefix(fn, "github.com/siglens/siglens/pkg/"), int64(n))
+		}
+		if rep.Final.Goroutines > rep.Baseline.Goroutines {
+			o.Max("final_goroutines_above_baseline", int64(rep.Final.Goroutines-rep.Baseline.Goroutines))
+		}
+		o.Count("goroutine_dumps_compared", int64(rep.DumpsCompared))
+		o.Max("baseline_dump_goroutines", int64(rep.BaselineDumpSize))
 		// 1. admission limit
 		if uint64(rep.MaxActive) > rep.Limit {
 			return fmt.Errorf("admission limit exceeded: %d queries listed as running at one sample, MAX_RUNNING_QUERIES=%d", rep.MaxActive, rep.Limit)
@@ -250,6 +341,31 @@ func checkLife(cs *lifeCase, o *pt.Obs) error {
 		if rep.Final.Goroutines > rep.Baseline.Goroutines+goroutineSlack {
 			return fmt.Errorf("goroutines not released: baseline %d, %d s after all %d queries ended (%d cancelled while running) still %d (slack %d):\n%s",
 				rep.Baseline.Goroutines, rep.SettleWaitedMs/1000, len(rep.Started), cancelRunning, rep.Final.Goroutines, goroutineSlack, rep.GoroutineDump)
+		}
+		// 5. exact: no goroutine started since the baseline dump (taken before the first query) has
+		// a frame in a per-query package. A goroutine counts as staying when it is in a waiting state
+		// with an unchanged stack for >= 3 s at the end of the settle period (>= 12 s after the last
+		// query returned); goroutines that still move after 90 s are residual work: inconclusive.
+		if len(rep.Leaked) > 0 {
+			var sb strings.Builder
+			staying := 0
+			for _, lg := range rep.Leaked {
+				if lg.Waiting && lg.StableMs >= leakStableMs {
+					staying++
+					if staying <= 6 {
+						fmt.Fprintf(&sb, "--- goroutine %d [%s], unchanged for %d ms, in %s:\n%s\n", lg.ID, lg.State, lg.StableMs, lg.Func, lg.Stack)
+					}
+				}
+			}
+			if staying == 0 {
+				lg := rep.Leaked[0]
+				return pt.Inconclusivef("%d goroutine(s) of finished queries are still moving %d s after the last query returned (residual work, e.g. [%s] %s)",
+					len(rep.Leaked), rep.SettleWaitedMs/1000, lg.State, lg.Func)
+			}
+			o.Class("leaked_query_goroutine")
+			return fmt.Errorf("%d goroutine(s) of finished queries stay: all %d queries have returned (%d ended by the query timeout [%d over the HTTP entry point], %d cancelled while running; queryTimeoutSecs=%d), "+
+				"tables empty, yet %d s later these goroutines, started after the baseline dump (%d goroutines, taken before the first query), are still blocked in per-query code (%d dumps compared):\n%s",
+				staying, len(rep.Started), timedOut, timedOutHTTP, cancelRunning, rep.TimeoutSecsAtStart, rep.SettleWaitedMs/1000, rep.BaselineDumpSize, rep.DumpsCompared, sb.String())
 		}
 		return nil
 	})
